@@ -263,7 +263,19 @@ func genInt(r *vgen.Rand) uint64 {
 	return vgen.Pick(r, intPool)
 }
 
+// asciiStrs: set by the encoder cases that want string-slice elements inside the modelled JSON escaping
+// (ASCII incl. control characters, quotes, backslash, <, >, &); about half of them are JSON-plain.
+var asciiStrs = false
+var strPoolASCII = []string{"", "x", "y", "p,q", "r s", "1", "true", "[", "]", "a.b-c_d", "~!@#$%^*()", "x,y,z", "{}", ":;'",
+	"a=b", "a\"b", "a\\b", "<&>", "\n", "\t\x01", "\x7f", "\b\f\r", "\x00", "\\", "\"", "\x1f"}
+
 func genStr(r *vgen.Rand, utf bool) string {
+	if utf && asciiStrs {
+		if r.Bool() {
+			return strPoolASCII[r.Intn(14)] // JSON-plain
+		}
+		return vgen.Pick(r, strPoolASCII)
+	}
 	if utf {
 		return vgen.Pick(r, strPoolUTF)
 	}
@@ -928,12 +940,17 @@ func main() {
 	}
 
 	// --- CEnc ---
-	nEnc := o.Count(130, 2500)
+	nEnc := o.Count(220, 3500)
 	utfCfg := genCfg{utf8only: true}
 	for i := 0; i < nEnc; i++ {
 		cfg := utfCfg
-		if i%2 == 0 {
+		asciiStrs = false
+		switch i % 4 {
+		case 0:
 			cfg.types = []int{4} // only strings: the encoding must decode back to exactly the bindings
+		case 1, 2:
+			cfg.types = []int{0, 1, 2, 4, 5, 6, 8, 8} // every type whose text is modelled; string slices over ASCII
+			asciiStrs = true
 		}
 		input := genInput(r, cfg, vgen.Pick(r, sizes[:14]))
 		if !validUTF(input) {
